@@ -26,7 +26,7 @@ ASSUMPTIONS = ["numbers read from the release file are compared to 4e-16 relativ
                "a row exactly one step after the last simulated step but before a stop that is off the step grid is not judged"]
 TIERS = {"quick": dict(runs=1500, budget_s=50, shrink=150),
          "thorough": dict(runs=150000, budget_s=900, shrink=250)}
-REQUIRED_PROBES = ["missing_value_in_column", "continuous", "reversed", "row_at_stop", "row_before_start", "mult_zero", "names_in_config",
+REQUIRED_PROBES = ["missing_value_in_column", "column_with_configured_default", "continuous", "reversed", "row_at_stop", "row_before_start", "mult_zero", "names_in_config",
                    "lonlat_release", "time_column", "continuous_first_before_start"]
 
 PROFILE = gen.profile(
@@ -53,6 +53,10 @@ def generate(seed: int, tier: str, idx: int) -> dict:
                 rel["rows"].append(row)
                 tag += 1
         rel["rows"].sort(key=lambda r: r["step"])
+    if s.chance(0.3):
+        for c in rel["extra"]:
+            if c["type"] in ("int", "float") and s.chance(0.7):
+                c["state_default"] = 77 if c["type"] == "int" else 77.5
     if any(c["name"] == "fvar" for c in rel["extra"]) and s.chance(0.3):
         # missing values ("nan") in a float column; the row after a missing one has a value and the other way round
         for k, r in enumerate(rel["rows"]):
@@ -115,6 +119,8 @@ def execute(sc) -> Result:
             res.probes["lonlat_release"] += 1
         if any(c["type"] == "time" for c in rel.get("extra", [])):
             res.probes["time_column"] += 1
+        if any("state_default" in c for c in rel.get("extra", [])):
+            res.probes["column_with_configured_default"] += 1
         if any(r.get("fvar", 0) is None for r in rel["rows"]):
             res.probes["missing_value_in_column"] += 1
             if rel.get("continuous") and len({r["step"] for r in rel["rows"]}) == len(rel["rows"]) > 1:
